@@ -12,6 +12,7 @@ import (
 	"testing"
 	"testing/iotest"
 
+	"github.com/ohler55/ojg"
 	"github.com/ohler55/ojg/gen"
 	"github.com/ohler55/ojg/oj"
 	"github.com/ohler55/ojg/sen"
@@ -79,6 +80,20 @@ var frontEnds = []frontEnd{
 		t := sen.Tokenizer{}
 		err := t.Parse(d, r)
 		return nil, r.Events, err
+	}},
+	// with the conversion option numbers kept as text come back as the nearest float64 instead
+	{"oj.Parse(NumConvFloat64)", false, func(d []byte) (any, []cmpx.Event, error) {
+		v, err := oj.Parse(d, ojg.NumConvFloat64)
+		return v, nil, err
+	}},
+	{"oj.Parser.ParseReader(NumConvFloat64)/1", false, func(d []byte) (any, []cmpx.Event, error) {
+		p := oj.Parser{}
+		v, err := p.ParseReader(iotest.OneByteReader(bytes.NewReader(d)), ojg.NumConvFloat64)
+		return v, nil, err
+	}},
+	{"sen.Parse(NumConvFloat64)", false, func(d []byte) (any, []cmpx.Event, error) {
+		v, err := sen.Parse(d, ojg.NumConvFloat64)
+		return v, nil, err
 	}},
 	// the same through instances that have a history of earlier calls (internal/vet)
 	{"oj.Parser(veteran).Parse", false, func(d []byte) (any, []cmpx.Event, error) { v, err := vet.OjParser().Parse(d); return v, nil, err }},
@@ -369,6 +384,8 @@ var classifiers = []vrt.Classifier{
 		return (d.Kind == "string" || d.Kind == "key") && hasTag(d, "pair-as-two-replacements")
 	}},
 	{ID: "C02-K1", Match: func(d vrt.Disc, c *vrt.Ctx) bool {
-		return d.Kind == "number-int-required" && hasTag(d, "int64-top-decade") && hasTag(d, "got:big")
+		// with NumConvFloat64 the number that was kept as text is then handed out as a float64
+		return d.Kind == "number-int-required" && hasTag(d, "int64-top-decade") &&
+			(hasTag(d, "got:big") || (strings.Contains(d.Where, "NumConvFloat64") && hasTag(d, "got:float")))
 	}},
 }
